@@ -142,6 +142,8 @@ def generate():
             status[fname] = f"not translated: {e}"
         except RecursionError:
             status[fname] = "not translated: recursion"
+        except (KeyError, IndexError, TypeError, AttributeError, ValueError) as e:  # source shape outside the subset
+            status[fname] = f"not translated: {type(e).__name__} {e}"
     try:
         funcs = cache.setdefault("orix/quaternion/quaternion.py", load_funcs("orix/quaternion/quaternion.py"))
         tabs = outer_dask_tables(funcs, consts)
